@@ -363,10 +363,12 @@ def main(argv):
         print("[%s %s] done rc=%d wall=%.1fs states=%d transitions=%d evals=%d distinct=%d traces=%d" % (
             prop, tier, rc, time.time() - ctx.t0, ctx.states, ctx.transitions, ctx.evaluations,
             ctx.distinct_nontrivial, ctx.traces_validated), flush=True)
-    except Infra as e:
-        print("INFRA: %s" % e, flush=True)
-        rc = 2
-    except Exception:
+    except Exception as e:
+        if type(e).__name__ == "Infra":      # (props import this file as module `vcheck`)
+            print("INFRA: %s" % e, flush=True)
+            rc = 2
+            ctx.cleanup()
+            return rc
         traceback.print_exc()
         print("INFRA: orchestrator exception", flush=True)
         rc = 2
